@@ -14,7 +14,9 @@
 (*     not on the stack, TabError when the two measures disagree about     *)
 (*     "equal / deeper";                                                   *)
 (*   - no indentation processing for blank and comment-only lines, inside  *)
-(*     brackets and on a line continued by a backslash;                    *)
+(*     brackets and on a line continued by a backslash; a line holding     *)
+(*     nothing but a backslash is skipped, and the statement it leads to   *)
+(*     takes the first non-zero column among such lines, else its own;     *)
 (*   - NEWLINE at the end of a logical line, NL otherwise; at the end of   *)
 (*     input the implicit NEWLINE, one DEDENT per open level, ENDMARKER;   *)
 (*     TokenError when the input ends inside a bracket or a continuation.  *)
@@ -32,8 +34,9 @@
 (* compares the stream with the prediction; the texts also feed the C02,   *)
 (* C08, C09 and C11 checks where CPython is the oracle.                    *)
 (***************************************************************************)
-EXTENDS Naturals, Sequences, FiniteSets, TLC, Json, CSV, IOUtils
-CONSTANTS MaxLines, UseWs, UseShape
+EXTENDS Integers, Sequences, FiniteSets, TLC, Json, CSV, IOUtils
+CONSTANTS MaxLines, UseWs, UseShape,
+          Plausible   \* TRUE: only layouts whose block structure a parser could accept (a deeper line exactly after a header)
 
 \* leading whitespace: sequences of units "s" (space), "t" (tab), "f" (form feed)
 Ws == << <<>>, <<"s">>, <<"s", "s">>, <<"s", "s", "s", "s">>, <<"t">>, <<"s", "t">>, <<"t", "s">>,                 \* 1-7
@@ -50,7 +53,8 @@ Shape == <<
   [cls |-> "cmt",   toks |-> << <<"COMMENT", "# c", 0>> >>,                                     text |-> "# c"],    \* 5
   [cls |-> "blank", toks |-> << >>,                                                             text |-> ""],       \* 6
   [cls |-> "cont",  toks |-> << <<"NAME", "a", 0>>, <<"OP", "+", 2>> >>,                        text |-> "a + \\"], \* 7
-  [cls |-> "code",  toks |-> << <<"NAME", "pass", 0>> >>,                                       text |-> "pass"]    \* 8
+  [cls |-> "code",  toks |-> << <<"NAME", "pass", 0>> >>,                                       text |-> "pass"],   \* 8
+  [cls |-> "bcont", toks |-> << >>,                                                             text |-> "\\"]      \* 9 nothing but a continuation
 >>
 \* Len of a TLA+ string is available in TLC
 TextLen(sh) == Len(Shape[sh].text)
@@ -60,11 +64,13 @@ VARIABLES lines,    \* chosen so far: <<ws index, shape index>>
           indents, alts, depth, cont,
           open,     \* significant tokens since the last NEWLINE
           toks,     \* predicted tokens <<type, text-or-ws-index, sl, sc, el, ec>>
-          err       \* <<>> or <<class, line, column>>
-vars == <<lines, eol, indents, alts, depth, cont, open, toks, err>>
+          err,      \* <<>> or <<class, line, column>>
+          pend,     \* -1, or the first non-zero column among the continuation-only lines that precede the statement
+          hdr       \* the last statement was a block header ("if a:")
+vars == <<lines, eol, indents, alts, depth, cont, open, toks, err, pend, hdr>>
 
 Init == lines = <<>> /\ eol = TRUE /\ indents = <<0>> /\ alts = <<0>> /\ depth = 0 /\ cont = FALSE /\ open = FALSE
-        /\ toks = <<>> /\ err = <<>>
+        /\ toks = <<>> /\ err = <<>> /\ pend = -1 /\ hdr = FALSE
 
 \* ---- measuring --------------------------------------------------------------
 RECURSIVE Measure(_, _, _)
@@ -90,7 +96,10 @@ Dedent(col, altc, ind, al, out, ln, pos) ==
        ELSE Dedent(col, altc, i2, a2, Append(out, <<"DEDENT", 0, ln, pos, ln, pos>>), ln, pos)
 
 IndentStep(w, ln) ==
-  LET m == Measure(Ws[w], 0, 0)  col == m[1]  altc == m[2]  pos == Len(Ws[w]) IN
+  LET m == Measure(Ws[w], 0, 0)  pos == Len(Ws[w])
+      \* a statement that follows continuation-only lines takes the first non-zero column among them, in both measures
+      col == IF pend > 0 THEN pend ELSE m[1]
+      altc == IF pend > 0 THEN pend ELSE m[2] IN
   IF col = Top(indents)
   THEN IF altc # Top(alts) THEN [ind |-> indents, alt |-> alts, toks |-> <<>>, err |-> <<"TabError", ln, pos + 1>>]
        ELSE [ind |-> indents, alt |-> alts, toks |-> <<>>, err |-> <<>>]
@@ -110,7 +119,7 @@ AddLine(w, sh, nl) ==
       pos == Len(Ws[w])
       endcol == pos + TextLen(sh)
       structural == depth = 0 /\ ~cont                       \* this line starts a logical line
-      skip == S.cls \in {"cmt", "blank"}                     \* blank / comment-only lines never touch the stack
+      skip == S.cls \in {"cmt", "blank", "bcont"}            \* blank / comment-only / continuation-only lines never touch the stack
       step == IF structural /\ ~skip THEN IndentStep(w, ln) ELSE [ind |-> indents, alt |-> alts, toks |-> <<>>, err |-> <<>>]
       depth2 == IF S.cls = "open" THEN depth + 1 ELSE IF S.cls = "close" THEN depth - 1 ELSE depth
       ends == S.cls \in {"code", "close"} /\ depth2 = 0      \* the logical line ends here
@@ -118,7 +127,7 @@ AddLine(w, sh, nl) ==
       \* (CPython's tokenizer raises instead; the parser rejects the token)
       stray == IF S.cls = "cont" /\ ~nl THEN << <<"ERRORTOKEN", "\\", ln, endcol - 1, ln, endcol>> >> ELSE <<>>
       nltok == IF ~nl THEN (IF S.cls = "cmt" THEN << <<"NL", 0, ln, endcol, ln, endcol>> >> ELSE <<>>)   \* a comment is always followed by an NL
-               ELSE IF S.cls = "cont" THEN <<>>
+               ELSE IF S.cls \in {"cont", "bcont"} THEN <<>>
                ELSE IF ends \/ (S.cls \in {"cmt", "blank"} /\ cont /\ open /\ depth = 0)
                     THEN << <<"NEWLINE", 0, ln, endcol, ln, endcol + 1>> >>
                ELSE << <<"NL", 0, ln, endcol, ln, endcol + 1>> >>
@@ -127,6 +136,13 @@ AddLine(w, sh, nl) ==
   /\ w \in UseWs /\ sh \in UseShape
   /\ (S.cls = "close") => depth > 0
   /\ (S.cls = "cont") => depth = 0
+  /\ hdr' = IF structural /\ ~skip THEN (sh = 2) ELSE hdr
+  /\ (Plausible /\ structural /\ ~skip) =>
+        LET c == IF pend > 0 THEN pend ELSE Measure(Ws[w], 0, 0)[1] IN (IF hdr THEN c > Top(indents) ELSE c <= Top(indents))
+  /\ (S.cls = "bcont") => (structural /\ nl)                 \* elsewhere, and at the very end, a lone backslash is just a continuation
+  /\ pend' = IF ~structural THEN pend
+             ELSE IF S.cls = "bcont" THEN (IF pend > 0 THEN pend ELSE Measure(Ws[w], 0, 0)[1])
+             ELSE -1                                       \* any other line at statement level ends the run
   /\ cont => S.cls \in {"code", "open", "cont"}              \* what follows a backslash is more of the same logical line
   /\ (S.cls = "blank" /\ ~nl) => w # 1                        \* an empty last "line" is no line at all
   /\ lines' = Append(lines, <<w, sh>>)
@@ -144,7 +160,7 @@ AddLine(w, sh, nl) ==
 Next == \E w \in 1..Len(Ws), sh \in 1..Len(Shape), nl \in BOOLEAN : AddLine(w, sh, nl)
 
 \* ---- end of input ------------------------------------------------------------
-Outcome == IF err # <<>> THEN err[1] ELSE IF depth > 0 \/ cont THEN "TokenError" ELSE "ok"
+Outcome == IF err # <<>> THEN err[1] ELSE IF depth > 0 \/ cont \/ pend >= 0 THEN "TokenError" ELSE "ok"
 LastLen == IF lines = <<>> THEN 0 ELSE Len(Ws[lines[Len(lines)][1]]) + TextLen(lines[Len(lines)][2])
 EndTokens ==
   LET n == Len(lines)
